@@ -447,6 +447,31 @@ Proof.
 Qed.
 End Final.
 
+(* the pattern of the aliased solver call sites (admm_linearized, prox_dca, doubleprox_dc):
+     x.lincomb(a, x, b, d);  prox(x, out=x)         -- d another live element (gradient / adjoint image) *)
+Section Site.
+Context {T : Type} `{Num T} `{Sqrt T}.
+Definition solver_step (e : op T) (a b : T) (x d : ref) (h : heap T) : heap T :=
+  run_ip e x x (st2 (lin a b) x d x h).
+Lemma solver_step_gen (e : op T) (a b : T) (h : heap T) (x d : ref) :
+  wfop (length x) e -> NoDup x -> below (next h) x -> below (next h) d -> dis d x ->
+  get (solver_step e a b x d h) x = pure e (lin a b (get h x) (get h d))
+  /\ get (solver_step e a b x d h) d = get h d.
+Proof.
+  intros Hwf Hnd Hbx Hbd Hdx. unfold solver_step.
+  assert (W : wrote h (st2 (lin a b) x d x h) x (lin a b (get h x) (get h d))).
+  { apply st2_wrote; [exact Hnd | autorewrite with len; reflexivity]. }
+  set (h1 := st2 (lin a b) x d x h) in *.
+  assert (N1 : next h1 = next h) by apply st2_next.
+  assert (P : pre h1 x x) by (unfold pre; rewrite N1; auto 10).
+  destruct (run_ip_ok e h1 x x Hwf P) as [A B _]. split.
+  - rewrite A, (wrote_get _ _ _ _ W). reflexivity.
+  - transitivity (get h1 d).
+    + apply get_ext; intros i Hi. apply B; [rewrite N1; eapply below_in; eauto | intros Hj; exact (Hdx i Hi Hj)].
+    + apply (wrote_frame _ _ _ _ _ W); assumption.
+Qed.
+End Site.
+
 (* ------------------------------------------------------------- instances at R *)
 Lemma R_add_zero : forall v : R, (1 * 0 + 1 * v = v)%R.
 Proof. intros; ring. Qed.
